@@ -6,7 +6,8 @@ Mirrors what `interpreter.AccountStorage{Save,Load,Copy,Borrow,Check,Type}`, `do
 
 * the state is a finite map  (account, path) ↦ stored value; every stored value carries its dynamic
   type (`Val.ty`; in the runtime: `value.StaticType`), and all type tests are
-  `subtype (dynamic type) T` (`IsSubTypeOfSemaType`);
+  `subtype (dynamic type) T` (`IsSubTypeOfSemaType`); the universe has optional types of any depth
+  (stored `Int?`, `@R?`, `nil`; type arguments `Int?`, `AnyStruct?`, `@{RI}?`, …);
 * a transaction runs its operations on a working copy (the runtime: cached domain storage maps /
   atree slabs that are written to the ledger only by `Storage.Commit`); it commits the copy when every
   operation succeeds and discards it when one aborts (overwrite, type mismatch, panic);
@@ -16,24 +17,31 @@ Core Lean only (linked into `drv_store`).
 -/
 namespace Verif.Model.Store
 
-/-- The type universe of the `store` stream (the contract `C` of the harness declares the composites). -/
-inductive Ty where
+/-- The base types of the `store` stream's universe (the contract `C` of the harness declares the
+    composites); `never` is only there as the content of `nil`'s dynamic type `Never?`. -/
+inductive Base where
   | int | string | bool | integer | arrInt | arrAny | s | s2 | i | anyStruct
-  | r | r2 | ri | anyResource
+  | r | r2 | ri | anyResource | never
   deriving DecidableEq, Repr, Inhabited
 
-def Ty.all : List Ty :=
-  [.int, .string, .bool, .integer, .arrInt, .arrAny, .s, .s2, .i, .anyStruct, .r, .r2, .ri, .anyResource]
+def Base.all : List Base :=
+  [.int, .string, .bool, .integer, .arrInt, .arrAny, .s, .s2, .i, .anyStruct, .r, .r2, .ri, .anyResource, .never]
 
-/-- resource-kinded types -/
-def Ty.isRes : Ty → Bool
+/-- resource-kinded base types (`Never` is of neither kind: it is below both top types) -/
+def Base.isRes : Base → Bool
   | .r | .r2 | .ri | .anyResource => true
   | _ => false
 
-/-- Subtyping on the universe, as a finite table: reflexivity, the two top types (per kind),
-    `Int <: Integer`, `[Int] <: [AnyStruct]`, conformance `S2 <: {I}`, `R2 <: {RI}`. -/
-def subtype (a b : Ty) : Bool :=
+/-- the two top types, one per kind -/
+def Base.isTop : Base → Bool
+  | .anyStruct | .anyResource => true
+  | _ => false
+
+/-- Subtyping on the base types, as a finite table: reflexivity, the two top types (per kind),
+    `Int <: Integer`, `[Int] <: [AnyStruct]`, conformance `S2 <: {I}`, `R2 <: {RI}`, `Never` below all. -/
+def baseSub (a b : Base) : Bool :=
   a == b
+  || a == .never
   || (b == .anyStruct && !a.isRes)
   || (b == .anyResource && a.isRes)
   || (a == .int && b == .integer)
@@ -41,18 +49,41 @@ def subtype (a b : Ty) : Bool :=
   || (a == .s2 && b == .i)
   || (a == .r2 && b == .ri)
 
-/-- Stored values.  `arrAny` is an array whose static type is `[AnyStruct]` (holding `Int`s). -/
+/-- A type of the universe: a base type under `opt` optional layers (`⟨.int, 2⟩` is `Int??`). -/
+structure Ty where
+  base : Base
+  opt : Nat := 0
+  deriving DecidableEq, Repr, Inhabited
+
+/-- `T?` -/
+def Ty.some (t : Ty) : Ty := { t with opt := t.opt + 1 }
+
+def Ty.isRes (t : Ty) : Bool := t.base.isRes
+
+/-- Subtyping (`sema.IsSubType` / `interpreter.IsSubTypeOfSemaType` on this universe):
+    optionals are covariant (`T? <: U?` iff `T <: U`), `T <: U?` if `T <: U`, an optional is below a
+    non-optional type only when that is the top type of its kind (`T? <: AnyStruct` iff `T <: AnyStruct`).
+    In closed form: the bases are related, and unless the supertype's base is a top type the subtype has
+    no more optional layers than the supertype. -/
+def subtype (a b : Ty) : Bool :=
+  baseSub a.base b.base && (b.base.isTop || decide (a.opt ≤ b.opt))
+
+/-- Stored values.  `arrAny` is an array whose static type is `[AnyStruct]` (holding `Int`s);
+    `some v` is `v` wrapped in an optional, `nil` the empty optional. -/
 inductive Val where
   | int (n : Int) | str (s : String) | bool (b : Bool)
   | arr (xs : List Int) | arrAny (xs : List Int)
   | s (x : Int) | s2 (x : Int) | r (x : Int) | r2 (x : Int)
+  | some (v : Val) | nil
   deriving DecidableEq, Repr, Inhabited
 
 /-- the dynamic type a value carries (`Value.StaticType`) -/
 def Val.ty : Val → Ty
-  | .int _ => .int | .str _ => .string | .bool _ => .bool
-  | .arr _ => .arrInt | .arrAny _ => .arrAny
-  | .s _ => .s | .s2 _ => .s2 | .r _ => .r | .r2 _ => .r2
+  | .int _ => ⟨.int, 0⟩ | .str _ => ⟨.string, 0⟩ | .bool _ => ⟨.bool, 0⟩
+  | .arr _ => ⟨.arrInt, 0⟩ | .arrAny _ => ⟨.arrAny, 0⟩
+  | .s _ => ⟨.s, 0⟩ | .s2 _ => ⟨.s2, 0⟩ | .r _ => ⟨.r, 0⟩ | .r2 _ => ⟨.r2, 0⟩
+  | .some v => v.ty.some
+  | .nil => ⟨.never, 1⟩
 
 /-- (account, path identifier) -/
 abbrev Key := Nat × Nat
